@@ -179,6 +179,8 @@ fn err_name(e: &vecdb::Error) -> String {
         Underflow => "Underflow".into(),
         Overflow => "Overflow".into(),
         IO(_) => "IO".into(),
+        IndexTooHigh { .. } => "IndexTooHigh".into(),
+        StampMismatch { .. } => "StampMismatch".into(),
         RawDB(rawdb::Error::WriteOutOfBounds { .. }) => "WriteOutOfBounds".into(),
         RawDB(rawdb::Error::TruncateInvalid { .. }) => "TruncateInvalid".into(),
         PCO(_) => "PCO".into(),
@@ -213,7 +215,13 @@ struct Out {
     tags: Vec<String>,
 }
 
-/// the reference vector of oracle (a)
+#[derive(Clone, PartialEq)]
+struct Snap {
+    c: Vec<u8>,
+    st: u64,
+}
+
+/// the reference vector of oracle (a), with the stack of committed snapshots for C04/C16
 struct Reference {
     cur: Vec<u8>, // little-endian bytes of the logical contents
     stamp: u64,
@@ -221,6 +229,30 @@ struct Reference {
     saved_stamp: u64,
     reset_pending: bool, // a reset() whose effect has not reached the disk yet
     reset_stale: bool,   // … and a write()/flush() returned without persisting it
+    base: Snap,                // the state a commit records its changes against (last commit / rollback / import)
+    undo: Vec<(u64, Snap)>,    // retained undo entries: (stamp of the commit, state it returns to), ascending
+    limbo: Vec<(u64, Snap)>,   // entries consumed by a rollback that has not been written yet
+    uncommitted: bool,         // push/truncate since `base`
+    noop_bb_dirty: bool,       // a rollback_before that applied nothing ran over uncommitted edits
+    bare_taint: bool,          // an effective bare write happened while records were retained: their disk prefix may be gone
+    bare_recs: Vec<u64>,       // stamps of commits made after an effective bare write()/flush()
+    prev_rb_ok: bool,          // a rollback succeeded since the last commit
+    bare_write: bool,          // an effective write()/flush() outside a commit since `base`
+}
+
+impl Reference {
+    fn entry(&self, st: u64) -> Option<usize> {
+        self.undo.iter().position(|r| r.0 == st)
+    }
+    fn apply(&mut self, i: usize) {
+        let (rs, snap) = self.undo.remove(i);
+        self.cur = snap.c.clone();
+        self.stamp = snap.st;
+        self.base = snap.clone();
+        self.limbo.push((rs, snap));
+        self.uncommitted = false;
+        self.bare_write = false;
+    }
 }
 
 fn read_regions<V: AnyStoredVec>(db: &Database, vec: &V) -> (usize, Vec<u8>, Vec<u8>) {
@@ -234,11 +266,29 @@ fn read_regions<V: AnyStoredVec>(db: &Database, vec: &V) -> (usize, Vec<u8>, Vec
     (data_len, hdr, pg)
 }
 
+/// listing of the change directory: `x` = absent, `-` = empty, else stamp:len:fnv,…
+fn read_changes(root: &std::path::Path, region: &str) -> String {
+    let dir = root.join("changes").join(region);
+    let Ok(rd) = std::fs::read_dir(&dir) else { return "x".into() };
+    let mut files: Vec<(u64, Vec<u8>)> = rd
+        .filter_map(|e| {
+            let p = e.ok()?.path();
+            let st = p.file_name()?.to_str()?.parse::<u64>().ok()?;
+            Some((st, std::fs::read(&p).ok()?))
+        })
+        .collect();
+    files.sort();
+    if files.is_empty() {
+        return "-".into();
+    }
+    files.iter().map(|(st, b)| format!("{}:{}:{:016x}", st, b.len(), crate::rng::fnv(b))).collect::<Vec<_>>().join(",")
+}
+
 fn open_db(path: &std::path::Path) -> Database {
     Database::open(path).expect("open database")
 }
 
-fn run_case<V, E>(fmt: &str, ty: &str, ops_in: &[String], out: &mut Out)
+fn run_case<V, E>(retention: u16, ops_in: &[String], out: &mut Out)
 where
     E: Elem,
     V: StoredVec<I = usize, T = E>,
@@ -248,22 +298,29 @@ where
     let tmp = tempfile::TempDir::new().expect("tempdir");
     let mut db: Option<Database> = Some(open_db(tmp.path()));
     let version = Version::TWO;
-    let mut vec: Option<V> = match V::forced_import_with((db.as_ref().unwrap(), "vec", version).into()) {
+    let import = |db: &Database| -> vecdb::Result<V> {
+        V::forced_import_with(vecdb::ImportOptions::new(db, "vec", version).with_saved_stamped_changes(retention))
+    };
+    let mut vec: Option<V> = match import(db.as_ref().unwrap()) {
         Ok(v) => Some(v),
         Err(e) => {
             out.obs.push(format!("0 err:{}", err_name(&e)));
             return;
         }
     };
-    let mut rf = Reference { cur: vec![], stamp: 0, saved: vec![], saved_stamp: 0, reset_pending: false, reset_stale: false };
-    let _ = (fmt, ty);
+    let mut rf = Reference {
+        cur: vec![], stamp: 0, saved: vec![], saved_stamp: 0, reset_pending: false, reset_stale: false,
+        base: Snap { c: vec![], st: 0 }, undo: vec![], limbo: vec![], uncommitted: false, bare_write: false, noop_bb_dirty: false, bare_taint: false, bare_recs: vec![], prev_rb_ok: false,
+    };
+    let root = tmp.path().to_path_buf();
 
     let observe = |k: usize, res: &str, rg: &str, db: &Database, v: &V| -> (String, Vec<u8>, Vec<u8>, usize) {
         let vals = v.collect();
         let bytes = le_bytes(&vals);
         let (dl, hd, pg) = read_regions(db, v);
+        let ch = read_changes(&root, &v.region_names()[0]);
         let line = format!(
-            "{} {} rg={} len={} st={} c={} sl={} pl={} rl={} dl={} hd={} pg={}",
+            "{} {} rg={} len={} st={} c={} sl={} pl={} rl={} dl={} hd={} pg={} ch={}",
             k,
             res,
             rg,
@@ -275,7 +332,8 @@ where
             v.real_stored_len(),
             dl,
             hex(&hd),
-            hex(&pg)
+            hex(&pg),
+            ch
         );
         (line, bytes, pg, dl)
     };
@@ -299,6 +357,7 @@ where
             (v.stored_len(), v.pushed_len(), v.real_stored_len())
         };
         let is_write = matches!(kind, "w" | "f" | "s");
+        let is_rb = matches!(kind, "b" | "bb");
         // Pages::has_changes() is not observable; it is true exactly while a reset() is pending
         let reset_pending0 = rf.reset_pending;
         if is_write {
@@ -341,7 +400,15 @@ where
             out.tags.push(format!("trunc:{t}"));
         }
 
+        // commits use increasing stamps (C16): a generated stamp that is not above the current one
+        // (the generator cannot know which rollbacks were refused) is bumped; the I line records it
+        let st_eff: u64 = if kind == "s" {
+            let st: u64 = parts[1].parse().unwrap();
+            let cur = u64::from(vec.as_ref().unwrap().stamp());
+            if retention > 0 && st <= cur { cur + 1 } else { st }
+        } else { 0 };
         // ---- execute on the real vector -----------------------------------------------------
+        // Ok(Ok(b)) = returned Ok (b = write()'s result); Ok(Err(kind)) = returned an error
         let step = catch_unwind(AssertUnwindSafe(|| -> Result<bool, String> {
             match kind {
                 "p" => {
@@ -350,15 +417,11 @@ where
                     for x in &vals {
                         v.push(*x);
                     }
-                    rf.cur.extend_from_slice(&le_bytes(&vals));
                     Ok(false)
                 }
                 "t" => {
                     let n: usize = parts[1].parse().unwrap();
                     vec.as_mut().unwrap().truncate_if_needed_at(n).map_err(|e| err_name(&e))?;
-                    if n * w < rf.cur.len() {
-                        rf.cur.truncate(n * w);
-                    }
                     Ok(false)
                 }
                 "w" => vec.as_mut().unwrap().write().map_err(|e| err_name(&e)),
@@ -371,17 +434,12 @@ where
                     Ok(!(pl0 == 0 && sl0 == rl0 && !reset_pending0))
                 }
                 "s" => {
-                    let st: u64 = parts[1].parse().unwrap();
                     let v = vec.as_mut().unwrap();
-                    v.stamped_write_with_changes(Stamp::new(st)).map_err(|e| err_name(&e))?;
-                    rf.stamp = st;
+                    v.stamped_write_with_changes(Stamp::new(st_eff)).map_err(|e| err_name(&e))?;
                     Ok(!(pl0 == 0 && sl0 == rl0 && !reset_pending0))
                 }
                 "r" => {
                     vec.as_mut().unwrap().reset().map_err(|e| err_name(&e))?;
-                    rf.cur.clear();
-                    rf.stamp = 0;
-                    rf.reset_pending = true;
                     Ok(false)
                 }
                 "i" | "o" => {
@@ -391,40 +449,237 @@ where
                         db = None;
                         db = Some(open_db(tmp.path()));
                     }
-                    let v = V::forced_import_with((db.as_ref().unwrap(), "vec", version).into()).map_err(|e| err_name(&e))?;
+                    let v = import(db.as_ref().unwrap()).map_err(|e| err_name(&e))?;
                     vec = Some(v);
-                    rf.cur = rf.saved.clone();
-                    rf.stamp = rf.saved_stamp;
+                    Ok(false)
+                }
+                "b" => {
+                    vec.as_mut().unwrap().rollback().map_err(|e| err_name(&e))?;
+                    Ok(false)
+                }
+                "bb" => {
+                    let st: u64 = parts[1].parse().unwrap();
+                    let _ = vec.as_mut().unwrap().rollback_before(Stamp::new(st)).map_err(|e| err_name(&e))?;
                     Ok(false)
                 }
                 _ => Err("BadOp".into()),
             }
         }));
-        let res = match step {
+        let (res, errk): (bool, Option<String>) = match step {
             Err(_) => {
                 out.obs.push(format!("{k} panic"));
-                out.viol.push(format!("panic-in-{} the call panicked at step {k}", op_name(kind)));
+                out.viol.push(format!("{}:panic-in-{} the call panicked at step {k}", if is_rb { "C16" } else { "C03" }, op_name(kind)));
                 out.ops.push(tok_out);
                 break;
             }
-            Ok(Err(e)) => {
+            Ok(Err(e)) if !is_rb => {
                 out.obs.push(format!("{k} err:{e}"));
-                out.viol.push(format!("error-{}-in-{} an operation of a valid history returned an error at step {k}", e, op_name(kind)));
+                out.viol.push(format!("C03:error-{}-in-{} an operation of a valid history returned an error at step {k}", e, op_name(kind)));
                 out.ops.push(tok_out);
                 break;
             }
-            Ok(Ok(b)) => b,
+            Ok(Err(e)) => (false, Some(e)),
+            Ok(Ok(b)) => (b, None),
         };
         let v = vec.as_ref().unwrap();
-        let (line, bytes, pg, dl) = observe(k, if res { "ok1" } else { "ok0" }, &rg, db.as_ref().unwrap(), v);
+        let res_s = match &errk { Some(e) => format!("err:{e}"), None => (if res { "ok1" } else { "ok0" }).to_string() };
+        let (line, bytes, pg, dl) = observe(k, &res_s, &rg, db.as_ref().unwrap(), v);
         out.obs.push(line);
         let pages = decode_index(&pg);
+        let obs_stamp = u64::from(v.stamp());
 
+        // ---- the reference steps ------------------------------------------------------------------
+        match kind {
+            "p" => {
+                let vals: Vec<E> = parse_vspec::<E>(parts[1]);
+                rf.cur.extend_from_slice(&le_bytes(&vals));
+                rf.uncommitted = true;
+            }
+            "t" => {
+                let n: usize = parts[1].parse().unwrap();
+                if n * w < rf.cur.len() {
+                    rf.cur.truncate(n * w);
+                    rf.uncommitted = true;
+                }
+            }
+            "r" => {
+                rf.cur.clear();
+                rf.stamp = 0;
+                rf.reset_pending = true;
+                rf.undo.clear();
+                rf.limbo.clear();
+                rf.bare_taint = false;
+                rf.base = Snap { c: vec![], st: 0 };
+                rf.uncommitted = false;
+                rf.bare_write = false;
+            }
+            "i" | "o" => {
+                rf.cur = rf.saved.clone();
+                rf.stamp = rf.saved_stamp;
+                rf.base = Snap { c: rf.cur.clone(), st: rf.stamp };
+                let mut l = std::mem::take(&mut rf.limbo);
+                rf.undo.append(&mut l);
+                rf.undo.sort_by_key(|r| r.0);
+                rf.uncommitted = false;
+                rf.bare_write = false;
+            }
+            "s" => {
+                let st: u64 = st_eff;
+                if retention > 0 {
+                    let curst = rf.stamp;
+                    rf.undo.retain(|r| r.0 < st && r.0 <= curst);
+                    let keep = retention as usize - 1;
+                    if rf.undo.len() > keep {
+                        let ex = rf.undo.len() - keep;
+                        rf.undo.drain(0..ex);
+                    }
+                    rf.undo.push((st, rf.base.clone()));
+                    rf.bare_recs.retain(|x| *x < st);
+                    if rf.bare_write { rf.bare_recs.push(st); }
+                    out.tags.push(format!("commit:{}", if rf.uncommitted { if rf.cur.len() < rf.base.c.len() { "shrinking" } else { "edited" } } else { "no-change" }));
+                }
+                rf.stamp = st;
+                rf.base = Snap { c: rf.cur.clone(), st };
+                rf.limbo.clear();
+                rf.uncommitted = false;
+                rf.bare_write = false;
+            }
+            "w" | "f" => {
+                if res {
+                    rf.limbo.clear();
+                    if retention > 0 {
+                        rf.bare_write = true;
+                        rf.bare_taint = true;
+                        out.tags.push("rollback-class:bare-write-between-commits".into());
+                    }
+                }
+            }
+            "b" => {
+                let clean = !rf.uncommitted && !rf.bare_write;
+                let was_bare = rf.bare_write || rf.bare_taint || rf.bare_recs.contains(&rf.stamp);
+                match (rf.entry(rf.stamp), &errk) {
+                    (Some(i), None) => {
+                        let want = rf.undo[i].1.clone();
+                        rf.apply(i);
+                        out.tags.push("rollback:applied".into());
+                        if bytes != want.c || obs_stamp != want.st {
+                            let key = if rf.noop_bb_dirty { "C16:rollback-restores-uncommitted-edits-rebased-by-noop-rollback-before" } else { "C04:rollback-result-differs-from-previous-commit" };
+                            rf.noop_bb_dirty = false;
+                            if was_bare {
+                                out.tags.push("rollback-class:result-after-bare-write-differs".into());
+                            } else {
+                            out.viol.push(format!("{key} step {k}: rollback returned {} values stamp {obs_stamp}, the previous committed state has {} values stamp {}", bytes.len() / w, want.c.len() / w, want.st));
+                            }
+                            rf.cur = bytes.clone();
+                            rf.stamp = obs_stamp;
+                            rf.base = Snap { c: bytes.clone(), st: obs_stamp };
+                        }
+                    }
+                    (Some(_), Some(e)) => {
+                        if bytes != rf.cur || obs_stamp != rf.stamp {
+                            out.viol.push(format!("C16:failed-rollback-changed-vector step {k}: rollback returned {e} but the contents or the stamp changed"));
+                            rf.cur = bytes.clone();
+                            rf.stamp = obs_stamp;
+                        }
+                        if was_bare {
+                            // outside C04's quantifier (plain write() between commits): model level only
+                            out.tags.push("rollback-class:record-after-bare-write-refused".into());
+                        } else if clean && rf.prev_rb_ok && e == "IndexTooHigh" {
+                            out.viol.push(format!("C04:chained-rollback-refused-after-undoing-a-truncating-commit step {k}: the previous rollback left stored_len at the truncation point; the retained record of stamp {} is refused with IndexTooHigh", rf.stamp));
+                        } else if clean {
+                            out.viol.push(format!("C04:rollback-within-retention-refused-{e} step {k}: the record of stamp {} is retained and nothing was edited since, yet rollback() returned {e}", rf.stamp));
+                        } else {
+                            out.tags.push("rollback:refused-with-uncommitted-edits".into());
+                        }
+                    }
+                    (None, None) => {
+                        out.viol.push(format!("C16:rollback-without-retained-record-succeeded step {k}: no undo record for stamp {} is retained (beyond retention or abandoned) but rollback() returned Ok", rf.stamp));
+                        rf.cur = bytes.clone();
+                        rf.stamp = obs_stamp;
+                        rf.base = Snap { c: bytes.clone(), st: obs_stamp };
+                    }
+                    (None, Some(e)) => {
+                        out.tags.push("rollback:beyond-retention-refused".into());
+                        if bytes != rf.cur || obs_stamp != rf.stamp {
+                            out.viol.push(format!("C16:failed-rollback-changed-vector step {k}: rollback returned {e} but the contents or the stamp changed"));
+                            rf.cur = bytes.clone();
+                            rf.stamp = obs_stamp;
+                        }
+                    }
+                }
+            }
+            "bb" => {
+                let target: u64 = parts[1].parse().unwrap();
+                let clean = !rf.uncommitted && !rf.bare_write && !rf.bare_taint;
+                // the committed states the walk passes through, newest first
+                let mut passed: Vec<Snap> = vec![Snap { c: rf.cur.clone(), st: rf.stamp }];
+                let mut und = rf.undo.clone();
+                let mut lim: Vec<(u64, Snap)> = vec![];
+                let mut missing = false;
+                loop {
+                    let cs = passed.last().unwrap().st;
+                    if cs < target {
+                        break;
+                    }
+                    match und.iter().position(|r| r.0 == cs) {
+                        Some(i) => {
+                            let (rs, sn) = und.remove(i);
+                            passed.push(sn.clone());
+                            lim.push((rs, sn));
+                        }
+                        None => {
+                            missing = und.iter().any(|r| r.0 < cs);
+                            break;
+                        }
+                    }
+                }
+                let obs = Snap { c: bytes.clone(), st: obs_stamp };
+                let applied = passed.len() - 1;
+                match &errk {
+                    None => {
+                        if obs != *passed.last().unwrap() && rf.bare_taint {
+                            out.tags.push("rollback-class:result-after-bare-write-differs".into());
+                        } else if obs != *passed.last().unwrap() {
+                            out.viol.push(format!("C04:rollback-before-result-differs step {k}: rollback_before({target}) ended on {} values stamp {obs_stamp}, the reference ends on {} values stamp {}", bytes.len() / w, passed.last().unwrap().c.len() / w, passed.last().unwrap().st));
+                        }
+                        out.tags.push(format!("rollback-before:applied-{}", applied.min(3)));
+                        if applied == 0 && rf.uncommitted {
+                            rf.noop_bb_dirty = true;
+                            out.tags.push("rollback-before:noop-over-uncommitted-edits".into());
+                        }
+                    }
+                    Some(e) => {
+                        if !passed.contains(&obs) {
+                            out.viol.push(format!("C16:failed-rollback-before-left-uncommitted-state step {k}: rollback_before({target}) returned {e} and left {} values stamp {obs_stamp}, not one of the committed states it passed through", bytes.len() / w));
+                        } else if applied > 0 && clean && !missing && e == "IndexTooHigh" && rf.bare_recs.is_empty() {
+                            out.viol.push(format!("C04:rollback-before-stops-midway-at-a-truncating-commit step {k}: rollback_before({target}) undid a truncating commit and then refused the next retained record with IndexTooHigh, leaving stamp {obs_stamp}"));
+                        } else if applied > 0 && clean && !missing && rf.bare_recs.is_empty() {
+                            out.viol.push(format!("C04:rollback-before-within-retention-refused-{e} step {k}: {applied} retained records lead below stamp {target}, nothing was edited since the last commit, yet rollback_before returned {e}"));
+                        }
+                        out.tags.push("rollback-before:refused".into());
+                    }
+                }
+                // follow the implementation: consume as many entries as it did
+                let n_done = passed.iter().position(|s| *s == obs).unwrap_or(applied);
+                for _ in 0..n_done {
+                    if let Some(i) = rf.entry(rf.stamp) {
+                        rf.apply(i);
+                    }
+                }
+
+                rf.cur = bytes.clone();
+                rf.stamp = obs_stamp;
+                if n_done > 0 { rf.base = Snap { c: bytes.clone(), st: obs_stamp }; rf.prev_rb_ok = true; }
+            }
+            _ => {}
+        }
+
+        if is_rb && errk.is_none() { rf.prev_rb_ok = true; } else if kind == "s" || kind == "r" { rf.prev_rb_ok = false; }
         if is_write {
             // the hints of this write: the real `bytes` of every page now on disk
             let hints = if pages.is_empty() { "-".to_string() } else { pages.iter().map(|p| p.bytes.to_string()).collect::<Vec<_>>().join(",") };
             tok_out = match kind {
-                "s" => format!("s:{}:{}", parts[1], hints),
+                "s" => format!("s:{}:{}", st_eff, hints),
                 _ => format!("{kind}:{hints}"),
             };
             // reference: what a re-import must return from now on
@@ -445,23 +700,23 @@ where
         if v.len() * w != rf.cur.len() || bytes != rf.cur {
             if known_reset {
                 out.viol.push(format!(
-                    "compressed-reset-not-persisted reset(); write()/flush() returned without rewriting the page index; re-import at step {k} returned {} values, the reference has {}",
+                    "C03:compressed-reset-not-persisted reset(); write()/flush() returned without rewriting the page index; re-import at step {k} returned {} values, the reference has {}",
                     v.len(), rf.cur.len() / w));
             } else if v.len() * w != rf.cur.len() {
-                out.viol.push(format!("len-differs-from-reference-after-{opn} step {k}: len {} reference {}", v.len(), rf.cur.len() / w));
+                out.viol.push(format!("C03:len-differs-from-reference-after-{opn} step {k}: len {} reference {}", v.len(), rf.cur.len() / w));
             } else {
                 let at = bytes.iter().zip(rf.cur.iter()).position(|(a, b)| a != b).unwrap_or(0) / w;
-                out.viol.push(format!("contents-differ-from-reference-after-{opn} step {k}: first differing index {at}"));
+                out.viol.push(format!("C03:contents-differ-from-reference-after-{opn} step {k}: first differing index {at}"));
             }
             // resynchronise so that later steps are still compared
             rf.cur = bytes.clone();
             rf.saved = bytes.clone();
         }
-        if u64::from(v.stamp()) != rf.stamp {
+        if obs_stamp != rf.stamp {
             if !known_reset {
-                out.viol.push(format!("stamp-differs-from-reference-after-{opn} step {k}: stamp {} reference {}", u64::from(v.stamp()), rf.stamp));
+                out.viol.push(format!("C03:stamp-differs-from-reference-after-{opn} step {k}: stamp {obs_stamp} reference {}", rf.stamp));
             }
-            rf.stamp = u64::from(v.stamp());
+            rf.stamp = obs_stamp;
         }
         if kind == "i" || kind == "o" {
             rf.reset_pending = false;
@@ -487,6 +742,8 @@ fn op_name(kind: &str) -> &'static str {
         "s" => "stamped-write",
         "r" => "reset",
         "i" => "reimport",
+        "b" => "rollback",
+        "bb" => "rollback-before",
         "o" => "reopen",
         _ => "op",
     }
@@ -497,52 +754,52 @@ fn op_name(kind: &str) -> &'static str {
 /// value counts add up to the stored length, and the data region ends where the last page ends."
 fn check_index(raw: &[u8], pages: &[DPage], data_len: usize, stored_len: usize, w: usize, pp: usize, k: usize, stale: bool, viol: &mut Vec<String>) {
     if raw.len() % 16 != 0 {
-        viol.push(format!("index-length-not-multiple-of-entry-size step {k}: {} bytes", raw.len()));
+        viol.push(format!("C07:index-length-not-multiple-of-entry-size step {k}: {} bytes", raw.len()));
     }
     let mut next = HEADER_OFFSET as u64;
     let mut sum = 0usize;
     for (i, p) in pages.iter().enumerate() {
         let last = i + 1 == pages.len();
         if i == 0 && p.start != HEADER_OFFSET as u64 {
-            viol.push(format!("index-first-page-not-right-after-header step {k}: start {}", p.start));
+            viol.push(format!("C07:index-first-page-not-right-after-header step {k}: start {}", p.start));
         } else if p.start != next {
-            viol.push(format!("index-gap-or-overlap step {k}: page {i} starts at {} but the previous page ends at {next}", p.start));
+            viol.push(format!("C07:index-gap-or-overlap step {k}: page {i} starts at {} but the previous page ends at {next}", p.start));
         }
         if !last && p.count as usize != pp {
-            viol.push(format!("index-nonlast-page-not-full step {k}: page {i} holds {} of {pp} values", p.count));
+            viol.push(format!("C07:index-nonlast-page-not-full step {k}: page {i} holds {} of {pp} values", p.count));
         }
         if !last && p.raw {
-            viol.push(format!("index-nonlast-page-raw step {k}: page {i}"));
+            viol.push(format!("C07:index-nonlast-page-raw step {k}: page {i}"));
         }
         if last && (p.count == 0 || p.count as usize > pp) {
-            viol.push(format!("index-last-page-empty-or-overfull step {k}: {} values", p.count));
+            viol.push(format!("C07:index-last-page-empty-or-overfull step {k}: {} values", p.count));
         }
         if p.raw && p.bytes as usize != p.count as usize * w {
-            viol.push(format!("index-raw-page-bytes-ne-count-times-size step {k}: page {i} bytes {} count {}", p.bytes, p.count));
+            viol.push(format!("C07:index-raw-page-bytes-ne-count-times-size step {k}: page {i} bytes {} count {}", p.bytes, p.count));
         }
         next = p.start + p.bytes as u64;
         sum += p.count as usize;
     }
     if sum != stored_len {
         if stale {
-            viol.push(format!("compressed-reset-not-persisted reset(); write() at step {k} returned without rewriting the page index: it still describes {sum} values, stored_len is {stored_len}"));
+            viol.push(format!("C07:compressed-reset-not-persisted reset(); write() at step {k} returned without rewriting the page index: it still describes {sum} values, stored_len is {stored_len}"));
         } else {
-            viol.push(format!("index-value-counts-ne-stored-len step {k}: index {sum} stored_len {stored_len}"));
+            viol.push(format!("C07:index-value-counts-ne-stored-len step {k}: index {sum} stored_len {stored_len}"));
         }
     }
     if data_len as u64 != next && !stale {
-        viol.push(format!("data-region-end-ne-last-page-end step {k}: region length {data_len}, last page ends at {next}"));
+        viol.push(format!("C07:data-region-end-ne-last-page-end step {k}: region length {data_len}, last page ends at {next}"));
     }
 }
 
 // ------------------------------------------------------------------------------------------------
-fn dispatch(fmt: &str, ty: &str, ops: &[String], out: &mut Out) -> bool {
+fn dispatch(fmt: &str, ty: &str, retention: u16, ops: &[String], out: &mut Out) -> bool {
     macro_rules! go {
         ($v:ident, $t:ty) => {{
             if fmt.starts_with('e') {
-                run_case::<EagerVec<$v<usize, $t>>, $t>(fmt, ty, ops, out)
+                run_case::<EagerVec<$v<usize, $t>>, $t>(retention, ops, out)
             } else {
-                run_case::<$v<usize, $t>, $t>(fmt, ty, ops, out)
+                run_case::<$v<usize, $t>, $t>(retention, ops, out)
             }
             true
         }};
@@ -598,7 +855,7 @@ struct GenState {
     written: usize,   // length as of the last write
 }
 
-fn gen_case(rng: &mut Rng) -> (String, String, Vec<String>) {
+fn gen_case(rng: &mut Rng) -> (String, String, u16, Vec<String>) {
     let fmts = ["pco", "lz4", "zstd", "epco", "pco", "lz4", "zstd", "ezstd", "elz4"];
     let fmt = *rng.pick(&fmts);
     let tys: &[&str] = if fmt.ends_with("pco") {
@@ -695,7 +952,105 @@ fn gen_case(rng: &mut Rng) -> (String, String, Vec<String>) {
         ops.push("w:-".into());
         ops.push("i".into());
     }
-    (fmt.to_string(), ty.to_string(), ops)
+    (fmt.to_string(), ty.to_string(), 0, ops)
+}
+
+/// commit / rollback histories (C04, C16): retention 1..4, edits between commits including
+/// truncation below the stored length and page-crossing pushes, rollback bursts of depth 1..k+1,
+/// rollback_before, continuations (push, write, commit, re-import, roll back again)
+fn gen_rollback_case(rng: &mut Rng) -> (String, String, u16, Vec<String>) {
+    let fmts = ["pco", "lz4", "zstd", "pco", "lz4", "zstd", "epco", "ezstd"];
+    let fmt = *rng.pick(&fmts);
+    let tys: &[&str] = if fmt.ends_with("pco") { &["u64", "u64", "i64", "u32", "f64", "u16"] } else { &["u64", "u128", "u128", "u32", "f64", "a3", "i64"] };
+    let ty = *rng.pick(tys);
+    let w = width_of(ty);
+    let pp = PAGE_BYTES / w;
+    let k = rng.range(1, 4) as u16;
+    let allow_bare = rng.chance(25, 100);
+    let allow_reset = rng.chance(15, 100);
+    let nops = rng.range(8, 26) as usize;
+    let cap = 2 * pp + pp / 2;
+    let mut len = 0usize;
+    let mut lens: Vec<(u64, usize)> = vec![]; // (stamp, length) of the commits
+    let mut stamp = 0u64;
+    let mut ops: Vec<String> = vec![];
+    let classes: &[u8] = match ty { "f32" | "f64" => b"ffrqs", _ => b"erqss" };
+    let mut n = 0;
+    while n < nops {
+        n += 1;
+        let r = rng.below(100);
+        if r < 30 {
+            let room = pp - len % pp;
+            let cnt = match rng.below(10) {
+                0 => 1,
+                1 | 2 | 3 | 4 => rng.range(2, 40) as usize,
+                5 => room,
+                6 => room + 1,
+                7 => pp,
+                8 => rng.range(pp as u64 / 2, pp as u64 + pp as u64 / 2) as usize,
+                _ => rng.range(1, (pp / 4).max(2) as u64) as usize,
+            };
+            let cnt = cnt.min(cap.saturating_sub(len)).max(1);
+            let cls = *rng.pick(classes) as char;
+            let seed = if cls == 'q' { rng.below(1000) } else { rng.next() >> 1 };
+            ops.push(format!("p:{cls}.{seed}.{cnt}"));
+            len += cnt;
+        } else if r < 44 {
+            let t = match rng.below(8) {
+                0 => len + 1,
+                1 => 0,
+                2 => (len / pp) * pp,
+                3 => lens.last().map_or(0, |l| l.1.saturating_sub(1 + rng.below(5) as usize)),   // just below the last commit
+                4 => lens.last().map_or(0, |l| l.1),
+                5 => len.saturating_sub(1),
+                _ => rng.below(len as u64 + 1) as usize,
+            };
+            ops.push(format!("t:{t}"));
+            len = len.min(t);
+        } else if r < 70 {
+            // strictly above the current stamp (C16: "commits with increasing stamps"); after a
+            // rollback this re-uses stamps of the abandoned future
+            stamp = stamp + 1 + rng.below(3);
+            ops.push(format!("s:{stamp}:-"));
+            lens.retain(|l| l.0 < stamp);
+            lens.push((stamp, len));
+        } else if r < 84 {
+            let depth = rng.range(1, k as u64 + 1);
+            for _ in 0..depth {
+                ops.push("b".into());
+                if let Some(l) = lens.pop() {
+                    len = lens.last().map_or(0, |x| x.1);
+                    stamp = lens.last().map_or(0, |x| x.0);
+                    let _ = l;
+                }
+            }
+        } else if r < 89 {
+            let target = match rng.below(4) {
+                0 => 0,
+                1 => stamp,
+                2 => stamp + 1,
+                _ => lens.get(rng.below(lens.len().max(1) as u64) as usize).map_or(0, |l| l.0),
+            };
+            ops.push(format!("bb:{target}"));
+            while lens.last().is_some_and(|l| l.0 >= target) {
+                lens.pop();
+            }
+            len = lens.last().map_or(0, |x| x.1);
+            stamp = lens.last().map_or(0, |x| x.0);
+        } else if r < 95 {
+            ops.push(if rng.chance(1, 4) { "o".into() } else { "i".into() });
+        } else if r < 98 {
+            if allow_bare {
+                ops.push(if rng.chance(1, 2) { "w:-".into() } else { "f:-".into() });
+            }
+        } else if allow_reset {
+            ops.push("r".into());
+            len = 0;
+            stamp = 0;
+            lens.clear();
+        }
+    }
+    (fmt.to_string(), ty.to_string(), k, ops)
 }
 
 fn strip_hints(tok: &str) -> String {
@@ -707,16 +1062,16 @@ fn strip_hints(tok: &str) -> String {
     }
 }
 
-fn emit(id: &str, fmt: &str, ty: &str, ops: &[String]) {
+fn emit(id: &str, fmt: &str, ty: &str, retention: u16, ops: &[String]) {
     let mut out = Out { ops: vec![], obs: vec![], viol: vec![], tags: vec![] };
-    let ok = dispatch(fmt, ty, ops, &mut out);
+    let ok = dispatch(fmt, ty, retention, ops, &mut out);
     if !ok {
-        println!("I {id} {fmt} {ty} v=2 {}", ops.join(" "));
+        println!("I {id} {fmt} {ty} v=2 k={retention} {}", ops.join(" "));
         println!("O {id} 0 err:UnsupportedTypeForFormat");
         return;
     }
     // ops not executed (after an error) are dropped from the input line: the line is what ran
-    println!("I {id} {fmt} {ty} v=2 {}", out.ops.join(" "));
+    println!("I {id} {fmt} {ty} v=2 k={retention} {}", out.ops.join(" "));
     for o in &out.obs {
         println!("O {id} {o}");
     }
@@ -736,18 +1091,22 @@ pub fn run(args: &[String]) -> i32 {
     if let Some(path) = a.replay {
         for (id, rest) in replay_inputs(&path) {
             let t: Vec<&str> = rest.split_whitespace().collect();
-            if t.len() < 3 {
+            if t.len() < 4 {
                 continue;
             }
-            let ops: Vec<String> = t[3..].iter().map(|s| strip_hints(s)).collect();
-            emit(&id, t[0], t[1], &ops);
+            let k: u16 = t[3].strip_prefix("k=").and_then(|x| x.parse().ok()).unwrap_or(0);
+            let ops: Vec<String> = t[4..].iter().map(|s| strip_hints(s)).collect();
+            emit(&id, t[0], t[1], k, &ops);
         }
         return 0;
     }
+    // --mode hist (retention 0: C07 / C03) | rollback (retention 1..4: C04 / C16) | mixed (default)
+    let mode = a.rest.iter().position(|x| x == "--mode").and_then(|i| a.rest.get(i + 1)).map(|s| s.as_str()).unwrap_or("mixed").to_string();
     let mut rng = Rng::new(a.seed);
     for id in 0..a.cases {
-        let (fmt, ty, ops) = gen_case(&mut rng);
-        emit(&id.to_string(), &fmt, &ty, &ops);
+        let rb = match mode.as_str() { "hist" => false, "rollback" => true, _ => rng.chance(35, 100) };
+        let (fmt, ty, k, ops) = if rb { gen_rollback_case(&mut rng) } else { gen_case(&mut rng) };
+        emit(&id.to_string(), &fmt, &ty, k, &ops);
     }
     0
 }
